@@ -144,6 +144,13 @@ var c12Specs = []c12Spec{
 		c.Add(a)
 		return &c12World{c: c, muts: []func(){func() { a.RemoveRoute("/a/y", "GET") }}, reqs: []h.Req{get("a", "x"), get("a", "y")}}
 	}},
+	{name: "unroute-two-servers", untouched: []int{0}, servers: [][]int{{0}, {1}}, mutators: [][]int{{0}}, world: func(jsr bool) *c12World {
+		// two requests read the route list of the same service while one of its routes is removed
+		c := c12Container(jsr)
+		a := newWS("/a", true, "/w", "/y", "/x")
+		c.Add(a)
+		return &c12World{c: c, muts: []func(){func() { a.RemoveRoute("/a/y", "GET") }}, reqs: []h.Req{get("a", "x"), get("a", "y")}}
+	}},
 	{name: "panicking-condition", servers: [][]int{{0, 1}}, mutators: [][]int{{0}}, world: func(jsr bool) *c12World {
 		c := c12Container(jsr)
 		c.DoNotRecover(false)
